@@ -26,7 +26,8 @@ RULE = (
     ">= 2 entries."
 )
 ASSUMPTIONS = [
-    "trials report every resource level 1,2,... consecutively (the documented requirement)",
+    "most trials report every resource level consecutively; a fraction reports only every 2nd / 3rd level (sparse "
+    "reporters skip rung levels, which the stopping type tolerates with a warning)",
     "bracket assignment is the scheduler's own random draw; it is observed from the arguments of the public terminator.on_task_add",
     "a metric within 16 eps (relative) of the quantile may go either way (counted as roundoff_band, not judged)",
     "rush_stopping with threshold candidates: only 'continues => passes the quantile rule' is claimed",
@@ -63,6 +64,8 @@ def floors(tier):
         "outcome:max:per_bracket:CONTINUE": 20 * k,
         "bracket>0_decisions": 200 * k,
         "rung_levels_checked": 500 * k,
+        "schedules_with_sparse_reporters": 500 * k,
+        "decided:skipped_rung_level": 300 * k,
     }
 
 
@@ -79,6 +82,9 @@ def expand(spec):
     p["space"] = gen.small_space(rng, ensure_infinite=True, ordinal_kinds=("equal",))
     if p["type"] == "rush_stopping":
         p["rush_candidates"] = rng.choice([0, 0, 1, 2, 3])
+    # sparse reporters: some training scripts validate only every k-th level and so jump over rung levels
+    # (tolerated by the stopping type: "milestone has been skipped"); decisions stay at own rung levels only
+    p["strides"] = rng.choice([None, None, None, [1, 1, 2], [1, 2, 3], [2], [1, 3]])
     p.update({k: v for k, v in spec.items() if k != "seed"})
     return p
 
@@ -134,6 +140,8 @@ class Monitor:
                                                       values=[e["value"] for e in self.ref.sys_of(b)[level]][:40]))
         else:
             o.count("decided:non_rung_level" if kind == "none" else "decided:reentry")
+            if t.stride > 1 and any(level - t.stride < lv < level for lv in self.ref.own_levels(b)):
+                o.count("decided:skipped_rung_level")
             if decision != "CONTINUE":
                 o.violate("decisions_only_at_own_rung_levels", f"decision_{decision}_at_non_rung_level",
                           {"level": level, "bracket": b, "own_levels": self.ref.own_levels(b)})
@@ -181,8 +189,10 @@ def run_case(spec):
     vp = {
         "n_workers": p["n_workers"], "max_t": p["max_t"], "metric": "loss", "resource_attr": "epoch",
         "policy": p["policy"], "seed": spec["seed"] + 2, "max_trials": p["max_trials"],
-        "max_events": p["max_events"], "order": p.get("order"),
+        "max_events": p["max_events"], "order": p.get("order"), "strides": p.get("strides"),
     }
+    if p.get("strides"):
+        o.count("schedules_with_sparse_reporters")
     with rung_contract(o):
         vt = VTuner(Port(sched), vp, curves, monitors=[mon]).run()
     if vt.raised:
